@@ -179,6 +179,8 @@ func hiddenCarriers(g *PageGen) []string {
 			"<figure>"+g.img()+"<figcaption>"+g.words(4)+" "+mk()+` <a href="`+g.linkURL()+`">`+g.words(1)+"</a></figcaption></figure>",
 			"<figure>"+g.img()+mk()+"<figcaption>"+g.words(4)+"</figcaption></figure>",
 			"<blockquote><p>"+g.words(25)+"</p>"+mk()+"</blockquote>",
+			"<figure>"+g.img()+mk()+"</figure>",
+			"<figure>"+g.img()+"<figcaption>"+g.words(3)+mk()+"</figcaption></figure>",
 			`<picture><source srcset="`+g.mediaURL("webp")+` 1x">`+mk()+`<img src="`+g.mediaURL("jpg")+`">`+mk()+"</picture>",
 			"<figure><picture>"+mk()+`<img src="`+g.mediaURL("jpg")+`"></picture><figcaption>`+g.words(3)+"</figcaption></figure>",
 			"<div>"+g.words(25)+mk()+g.words(10)+"</div>",
